@@ -192,3 +192,22 @@ Definition erase_ms (m : mstate) : mstate :=
   set_ms_zombie_lines (set_ms_target m (erase_target (ms_target m))) 0.
 Definition erase_io (s : sys) : sys :=
   mksys (map erase_bar (s_bars s)) (erase_ms (s_mp s)) 0.
+
+(* every step of a history: the state it starts from, the op, the calls that reached the terminal *)
+Fixpoint run_steps (W H : N) (fails : N -> bool) (s : sys) (ops : list (N * op))
+  : list (sys * op * list termop) :=
+  match ops with
+  | [] => []
+  | (now, o) :: r =>
+      let '(s1, e, _) := step W H fails s now o in
+      (s, o, e) :: run_steps W H fails s1 r
+  end.
+
+(* io::Result of every call of a history *)
+Fixpoint run_oks (W H : N) (fails : N -> bool) (s : sys) (ops : list (N * op)) : list bool :=
+  match ops with
+  | [] => []
+  | (now, o) :: r =>
+      let '(s1, _, ok) := step W H fails s now o in
+      ok :: run_oks W H fails s1 r
+  end.
